@@ -59,6 +59,18 @@ def make_cases(prop, seed, n):
         used = shape.apply(rng, prop, prog, 0.5)
         shaped.append((prog, envs, ticks + (3 if used else 0)))
     cases = shaped
+    if prop in ("C02", "C03", "C11"):
+        # the run does not have to start at stamp 0: half of the programs start at another stamp (in ticks); the
+        # spec's clock is relative to the start, so the expected behaviour is the same run shifted by t0
+        for (prog, envs, ticks) in cases:
+            if rng.random() < 0.5:
+                prog["t0"] = rng.choice((1, 3, 7, 40, 41, 160))
+    if prop in ("C04", "C09", "C07"):
+        # an order clause on a framer the scheduler does not run (slave, auxiliary) is legal and changes nothing
+        for (prog, envs, ticks) in cases:
+            for f, fr in prog["framers"].items():
+                if fr["sched"] in ("slave", "aux") and f not in prog["order"] and rng.random() < 0.5:
+                    fr["order"] = rng.choice(("front", "mid", "back"))
     if "raises" in profile:
         for (prog, envs, ticks) in cases:
             if rng.random() < 0.6:
